@@ -74,8 +74,8 @@ func evalC06(k xCase) []pbt.Violation {
 }
 
 func TestC06(t *testing.T) {
-	runXProp(t, xProp{id: "C06",
-		rule: "packets (root and nested) with a calculated-from field of each integer width the language builds, either attribute spelling, both byte orders, preceded by 0..many bytes including variable-length fields and followed or not by further fields; every message is encoded twice, with the test algorithm registered and not registered, with arbitrary caller values. The test algorithm is a position-sensitive polynomial hash over the whole output buffer written so far, so covering one byte more or fewer, or only the current packet, changes it. Oracle: the field's range holds ALG(bytes[0:offset]) truncated to the declared width in the configured order when registered, the caller's value otherwise; the decoder's dump shows the wire value. Non-trivial = a checksum field with at least one preceding byte and a multi-byte width; distinct = hash of (program, messages, languages).",
+	runXPropWith(t, xProp{id: "C06",
+		rule: "packets (root and nested) with a calculated-from field of each integer width the language builds, either attribute spelling, both byte orders, preceded by 0..many bytes including variable-length fields and followed or not by further fields; every message is encoded twice, with the test algorithm registered and not registered, with arbitrary caller values. The test algorithm is a position-sensitive polynomial hash (31 bits; for 64-bit fields without a Java codec the hash in both halves of a 64-bit value) over the whole output buffer written so far, so covering one byte more or fewer, or only the current packet, changes it. Oracle: the field's range holds ALG(bytes[0:offset]) truncated to the declared width in the configured order when registered, the caller's value otherwise; the decoder's dump shows the wire value. Non-trivial = a checksum field with at least one preceding byte and a multi-byte width; distinct = hash of (program, messages, languages).",
 		eval: evalC06,
 		cfg: func(rt *rapid.T, avoid map[string]bool) (dsl.GenCfg, int, dsl.ValCfg, bool) {
 			return dsl.GenCfg{MaxPackets: 3, MaxFields: 5, WantSum: true, WantLen: rapid.Bool().Draw(rt, "wantlen"), WantMatch: rapid.Bool().Draw(rt, "wantmatch"), Avoid: avoid}, 3, dsl.ValCfg{MaxList: 3}, false
@@ -84,5 +84,27 @@ func TestC06(t *testing.T) {
 			f := k.Prog.Features()
 			return dsl.Has(f, "sum") && !(dsl.Has(f, "sum:u8") && !dsl.Has(f, "sum:u16")) || dsl.Has(f, "sum:u16") || dsl.Has(f, "sum:u32") || dsl.Has(f, "sum:u64") || dsl.Has(f, "sum:i32")
 		},
+	}, func(rt *rapid.T, k *xCase) {
+		// a 64-bit checksum field holds the algorithm's value in 64 bits: where no Java codec is
+		// involved (its service interface returns an Integer) the registered test algorithm
+		// returns values that do not fit 32 bits
+		f := k.Prog.Features()
+		if !(dsl.Has(f, "sum:u64") || dsl.Has(f, "sum:i64")) {
+			return
+		}
+		var others []string
+		for _, l := range k.Langs {
+			if l != "java" {
+				others = append(others, l)
+			}
+		}
+		if len(others) < len(k.Langs) {
+			// half of these cases go without the Java codec
+			if len(others) == 0 || rapid.Bool().Draw(rt, "keep_java") {
+				return
+			}
+			k.Langs = others
+		}
+		k.WideSum = true
 	})
 }
